@@ -342,7 +342,7 @@ LEVELS = [{"K": 0, "T": 0}, {"K": 1, "T": 0}, {"K": 2, "T": 0}, {"K": 3, "T": 0}
 
 def leg(part, tier, shard, nshards):
     total = explore.explore_adaptive(harnesses(tier), LEVELS, 20000 if tier == "quick" else 400000, chunk=150,
-                                     global_budget=120000 if tier == "quick" else 2500000)
+                                     global_budget=120000 if tier == "quick" else 900000)
     part.merge(total)
     part.counters["harnesses"] = len(harnesses(tier))
 
